@@ -160,7 +160,14 @@ def _replay_schema(case: dict) -> List[str]:
     return schema_stream.replay_case(case)
 
 
-PROPS["C10"] = {"theorems": [], "run": _run_schema, "replay": _replay_schema,
+PROPS["C10"] = {"theorems": ["C10_outcome", "C10_json_only_partial", "C10_ref", "C10_nonrecurrent", "C10_lazy_unnamed",
+                             "predSchema_outcome", "jsonOnlyO_jaddPred"],
+                "level_note": "proved for the model `toSchema`: object-or-TypeError for every tree (given CPython's printers are "
+                              "total), JSON types only for trees with admitted finite parameters (D11 is the excluded case), a "
+                              "Lazy is never followed; validity against the Draft 2020-12 metaschema, strict serialisation, "
+                              "determinism across the process history and 'validator unmodified' are decided on the real code "
+                              "by the oracle, and the model is tied to the real generator by comparing the two schemas",
+                "run": _run_schema, "replay": _replay_schema,
                 "rule": "validator trees over every built-in validator and predicate kind (supported and unsupported), every "
                         "admitted parameter type, records with 0-4 keys, unions, optionals, recursive Lazy; to_json_schema and "
                         "to_named_json_schema with arbitrary names / ref locations; non-trivial = a schema was produced"}
